@@ -469,10 +469,19 @@ def check_number_handoff(prog: Program, rep, rule: str) -> None:
             return number_in_fixed_unit(e.operand, f, depth)
         if isinstance(e, ast.Constant) and isinstance(e.value, (int, float)) and not isinstance(e.value, bool) and e.value != 0:
             return f'the constant {e.value!r}'
-        if isinstance(e, ast.Name) and depth < 3 and e.id not in f.params:
+        if isinstance(e, ast.Name) and depth < 3:
             vals = assigned_values(f, e.id)
+            if e.id in f.params:
+                # a parameter rebound by a plain statement of the function body (not under a branch) before use
+                top = [s_ for s_ in f.node.body if isinstance(s_, (ast.Assign, ast.AnnAssign))
+                       and any(isinstance(t_, ast.Name) and t_.id == e.id
+                               for t_ in (s_.targets if isinstance(s_, ast.Assign) else [s_.target]))
+                       and s_.lineno < getattr(e, 'lineno', 10 ** 9)]
+                if not top:
+                    return None
             if vals and all(v is not None for v in vals):
-                why = [number_in_fixed_unit(v, f, depth + 1) for v in vals]
+                why = [number_in_fixed_unit(v, f, depth + 1) if not (isinstance(v, ast.Name) and v.id == e.id) else None
+                       for v in vals]
                 if all(why):
                     return f'`{e.id}` = {why[0]}'
         return None
@@ -568,6 +577,7 @@ VARIANTS = [
     Variant('wind-until-or-default', 'break', [(CON, 'Distance.Foot(self.MAX_DISTANCE_FEET) if until_distance is None else until_distance', 'until_distance or Distance.Foot(self.MAX_DISTANCE_FEET)')], 'C07.R1', 'the defect repaired by e2838cb', 'pass'),
     Variant('danger-space-distance-slot', 'break', [(TD, 'PreferredUnits.target_height(target_height)', 'PreferredUnits.distance(target_height)')], 'C07.R2', 'the defect repaired by cd2aa9f', 'pass'),
     Variant('ammo-default-powder-temp-bare', 'break', [(MUN, 'PreferredUnits.temperature(Temperature.Celsius(15) if powder_temp is None else powder_temp)', 'PreferredUnits.temperature(59.0 if powder_temp is None else powder_temp)')], 'C07.R2', 'the default follows the temperature preference (59 C, 59 K)'),
+    Variant('multibc-rebinds-parameters-to-floats', 'break', [('py_ballisticcalc/drag_model.py', '    weight = PreferredUnits.weight(weight)\n    diameter = PreferredUnits.diameter(diameter)\n    if weight > 0 and diameter > 0:\n        bc = sectional_density(weight >> Weight.Grain, diameter >> Distance.Inch)', '    weight = PreferredUnits.weight(weight) >> Weight.Grain\n    diameter = PreferredUnits.diameter(diameter) >> Distance.Inch\n    if weight > 0 and diameter > 0:\n        bc = sectional_density(weight, diameter)')], 'C07.R4', 'seeded change C05/7'),
     Variant('multibc-hands-floats-to-dragmodel', 'break', [('py_ballisticcalc/drag_model.py', '    return DragModel(bc, drag_table, weight, diameter, length)', '    return DragModel(bc, drag_table, weight >> Weight.Grain, diameter >> Distance.Inch, length)')], 'C07.R4', 'seeded change C07/5'),
     Variant('icao-conditions-memoised-on-bare-altitude', 'break', [(CON, '    @staticmethod\n    def icao(altitude: Union[float, Distance] = 0,', '    @staticmethod\n    @lru_cache(maxsize=64)\n    def icao(altitude: Union[float, Distance] = 0,'), (CON, 'import math\nimport warnings\n', 'import math\nimport warnings\nfrom functools import lru_cache\n')], 'C07.R3', 'seeded change C07/4 in spirit'),
     Variant('twin-or-zero-float', 'twin', [(CON, 'PreferredUnits.angular(look_angle or 0)', 'PreferredUnits.angular(look_angle or 0.0)')], None),
